@@ -130,4 +130,4 @@ _HIST['C05'] = ' Constructor clause: every family requested by degree through th
 _HIST['C12'] = ' Universes with very short end times (2^-9, 2^-11) where only the seam / corner couples survive.'
 for _k, _t in _HIST.items():
     CHECKS[_k]['level_claimed']['text'] += _t
-NOTES += ' Thorough-tier wall times measured on this 16-core sandbox (under load): C01 13 min, C02 4 min, C03 26 min, C04 1.5 min, C06 52 min, C07 7 min, C08 4 min, C09 2 min, C10 5 min, C11 5 min, C12 8 min, C13 21 min, C15 1.5 min, C16 6 min, C17 9 min, C19 11 min, C20 3 min; C05/C14/C18 under 30 s.'
+NOTES += ' Thorough-tier wall times measured on this 16-core sandbox (partly under load from other jobs): C01 5 min, C02 6 min, C03 27 min, C04 1 min, C06 53 min, C07 6 min, C08 7 min, C09 3 min, C10 10 min, C11 2.5 min, C12 18 min, C13 56 min, C15 1.5 min, C16 6 min, C17 13 min, C19 14 min, C20 2 min; C05/C14/C18 under 30 s. Quick tier: 3 s (C05) to 80 s (C06, C08, C17), about 12 min for all twenty.'
